@@ -31,8 +31,9 @@ structure St where
   t : Array (Option (TP F)) := Array.replicate 4 none
   /-- the wrapper and the coefficients of the wrapped polynomial -/
   w : Option (W F × List (Coef F)) := none
-  /-- were all initial values more than `tiny` away from their open bounds (hypothesis of
-  `wrap_preserves_values` / `set_sync`)? -/
+  /-- are the hypotheses of `wrap_preserves_values` / `all_histories_accepted` other than "the value
+  is accepted by its constraint" satisfied (`quantOk`: bounds within the property's quantifier,
+  finite intervals roomy)? -/
   wf : Bool := true
 
 /-! ### executable predicates (Float shadows of the theorems) -/
@@ -156,30 +157,22 @@ def polyMag (cs : List (Coef F)) (p : List F) : F :=
   let m := zs.foldl (fun acc (k, x) => acc + fabs (k.c * x) + fabs (k.q * (x * x))) 1.0
   (zs.zip (p.drop 1)).foldl (fun acc ((k, x), x') => acc + fabs (k.e * (x * x'))) m
 
-/-- within `tiny` of a closed bound: `init_` moves the value by `tiny` -/
-def nudged (sh : Shape F) (v : F) : Bool :=
-  match sh with
-  | .cc a b => fabs (v - a) < tiny || fabs (v - b) < tiny
-  | .co a _ => fabs (v - a) < tiny
-  | .oc _ b => fabs (v - b) < tiny
-  | .ge a => fabs (v - a) < tiny
-  | .le b => fabs (v - b) < tiny
-  | _ => false
+/-- `init_` moves the value (closer than `tiny` to a closed bound or to the corrected open bound):
+the model's own test `Reparam.isNudged`, whose negation over the reals is the hypothesis `NotNudged`
+of `wrap_nudge` / `all_histories_accepted` (`isNudged_false_iff`) -/
+def nudged (sh : Shape F) (v : F) : Bool := Reparam.isNudged tiny sh v
 
-/-- the property quantifies over values at least `1e-9` away from a bound (hypothesis `Margin` of
-`all_histories_margin`; `margin_admits` shows it implies the hypotheses of
-`wrap_preserves_values` because `TINY() < 1e-9`).  Values closer to an *open* bound are outside
-the quantifier: `init_` moves open bounds inwards by `TINY()`.  (0.99e-9: the distance of a
-generated value from its bound is `1e-9` up to rounding.) -/
-def marginF : F := 0.99e-9
-def nearOpen (sh : Shape F) (v : F) : Bool :=
+/-- the property's quantifier on constraints: bounds within [-1e3,1e3] (beyond ~1e4 an ulp of the
+bound exceeds `TINY()` and the corrected bounds collapse -- rounding, not modelled) and finite
+intervals wider than `4 TINY()` (hypothesis `Roomy` of `Admits`).  Every *value* accepted by such a
+constraint is inside the theorems' hypotheses: nothing is excluded next to a bound. -/
+def quantOk (sh : Shape F) : Bool :=
+  let okb := fun (x : F) => fabs x ≤ 1000.0
   match sh with
-  | .oo a b => v < a + marginF || v > b - marginF
-  | .co _ b => v > b - marginF
-  | .oc a _ => v < a + marginF
-  | .gt a => v < a + marginF
-  | .lt b => v > b - marginF
-  | _ => false
+  | .cc a b | .oo a b | .co a b | .oc a b => okb a && okb b && b - a > 4.0 * tiny
+  | .gt a | .ge a => okb a
+  | .lt b | .le b => okb b
+  | .none => true
 
 def shapeMag (sh : Shape F) (v : F) : F :=
   let m := fmax 1.0 (fabs v)
@@ -196,13 +189,15 @@ def showW (w : W F) : String :=
 
 def splitSemi (t : List String) : List (List String) := splitTok ";" t
 
-/-- verdict of `w.new` (`wrap_preserves_values`) -/
+/-- verdict of `w.new` (`wrap_preserves_values`, `wrap_nudge`): for *every* value accepted by its
+constraint wrapping succeeds, the function's parameters are untouched and each transformed parameter
+back-transforms to the initial value -- up to `2 tiny` when `init_` moves it, exactly (to rounding)
+otherwise -- and to a value the constraint accepts -/
 def newWVerdict (impl : Option (List String)) (ps : List (Shape F × F)) : String :=
+  if !(ps.all (fun (shp, _) => quantOk shp)) then "-" else
   match impl with
   | none => "-"
-  | some ("exc:constraint" :: _) =>
-    -- wrapping raised although every value is admissible
-    if ps.all (fun (shp, v) => !nearOpen shp v) then "FAIL:wrap_preserves_values" else "-"
+  | some ("exc:constraint" :: _) => "FAIL:wrap_preserves_values"
   | some t =>
     match splitSemi t with
     | [_, os, fs] =>
@@ -210,29 +205,36 @@ def newWVerdict (impl : Option (List String)) (ps : List (Shape F × F)) : Strin
       | some os, some fs =>
         if os.length != ps.length || fs.length != ps.length then "FAIL:parse"
         else if !((ps.zip fs).all (fun ((_, v), f) => sh v == sh f)) then "FAIL:wrap_preserves_values"
-        else if !((ps.zip os).all (fun ((shp, v), o) => nearOpen shp v ||
+        else if !((ps.zip os).all (fun ((shp, v), o) =>
             fabs (o - v) ≤ two44 * shapeMag shp v + (if nudged shp v then 2.0 * tiny else 0.0))) then "FAIL:wrap_preserves_values"
+        else if !((ps.zip os).all (fun ((shp, _), o) => shp.isCorrect o)) then "FAIL:back_in_domain"
         else "ok"
       | _, _ => "FAIL:parse"
     | _ => "FAIL:parse"
 
 /-- verdict of `w.set`: the value is the function at its own point (`wrap_f_eq`), that point
 satisfies the constraints (`back_in_domain`), named coordinates are the back-transformed ones
-(`wrap_sync`), the others are untouched -/
+(`set_sync`; when no named coordinate changed nothing is recomputed and a value moved by `init_` may
+still be up to `2 tiny` off), every coordinate is within `2 tiny` of the back-transformed one
+(`all_histories_accepted`), the coordinates that are not named are untouched -/
 def setVerdict (impl : Option (List String)) (cs : List (Coef F)) (before after : W F) (upd : List (Option F)) (wf : Bool) : String :=
   match impl with
   | none => "-"
-  | some ("exc:constraint" :: _) => "FAIL:set_never_raises"
+  | some ("exc:constraint" :: _) => if wf then "FAIL:set_never_raises" else "-"
   | some t =>
     match splitSemi t with
     | [[f], ps, _] =>
       match fl? f, fls? ps with
       | some f, some ps =>
+        let ch := (List.zipWith changed before upd).any id
+        let slack : F := if ch then 0.0 else 2.0 * tiny
         if ps.length != after.length then "FAIL:parse"
         else if sh f != sh (Poly.f cs ps) then "FAIL:wrap_f_eq"
         else if !((after.zip ps).all (fun (s, p) => s.shape.isCorrect p)) then "FAIL:back_in_domain"
         else if wf && !(((after.zip ps).zip upd).all (fun ((s, p), u) => u.isNone ||
-            fabs (p - s.tp.getOriginal pi) ≤ two44 * shapeMag s.shape p)) then "FAIL:wrap_sync"
+            fabs (p - s.tp.getOriginal pi) ≤ two44 * shapeMag s.shape p + slack)) then "FAIL:wrap_sync"
+        else if wf && !((after.zip ps).all (fun (s, p) =>
+            fabs (p - s.tp.getOriginal pi) ≤ two44 * shapeMag s.shape p + 2.0 * tiny)) then "FAIL:wrap_near"
         else if !(((before.zip ps).zip upd).all (fun ((s, p), u) => u.isSome || sh p == sh s.fn)) then "FAIL:wrap_untouched"
         else "ok"
       | _, _ => "FAIL:parse"
@@ -425,8 +427,11 @@ def step (s : St) (op : List String) (impl : Option (List String)) : St × Strin
       -- the function's own `Parameter(name, value, constraint)` raises on an incorrect value
       if !(ps.all (fun (shp, v) => shp.isCorrect v)) then ({ s with w := none }, "exc:constraint", "-") else
       match Reparam.init pi tiny ps with
-      | .ok w => ({ s with w := some (w, cs), wf := ps.all (fun (shp, v) => !nearOpen shp v) }, showW w, newWVerdict impl ps)
-      | .error e => ({ s with w := none }, excStr e, "-")
+      | .ok w => ({ s with w := some (w, cs), wf := ps.all (fun (shp, _) => quantOk shp) }, showW w, newWVerdict impl ps)
+      | .error e =>
+        -- `wrap_preserves_values`: over the reals wrapping never raises on accepted values
+        ({ s with w := none }, excStr e,
+          match impl with | some _ => if ps.all (fun (shp, _) => quantOk shp) then "FAIL:wrap_preserves_values" else "-" | none => "-")
     | _, _ => (s, "bad-op", "-")
   | "w.set" :: m :: rest =>
     match s.w, nat? m with
